@@ -35,6 +35,7 @@ FOCUS = {
     "merge_all": ["operators/_merge.py", "internal/concurrency.py"],
     "merge_all:outer": ["operators/_merge.py", "internal/concurrency.py"],
     "flat_map:outer": ["operators/_flatmap.py", "operators/_merge.py", "internal/concurrency.py"],
+    "switch_latest:outer": ["operators/_switchlatest.py", "internal/concurrency.py"],
     "flat_map": ["operators/_flatmap.py", "operators/_merge.py", "internal/concurrency.py"],
     "zip": ["observable/zip.py", "internal/concurrency.py"],
     "combine_latest": ["observable/combinelatest.py", "internal/concurrency.py"],
@@ -113,6 +114,9 @@ class H:
             o = reactivex.merge(*subs)
         elif op == "merge_all":
             o = reactivex.of(*subs).pipe(ops.merge_all())
+        elif op == "switch_latest:outer":
+            st["outer"] = Subject()
+            o = st["outer"].pipe(ops.switch_latest())
         elif op in ("merge_all:outer", "flat_map:outer"):
             # the outer sequence is driven by its own thread too: it hands out the inner subjects and completes
             st["outer"] = Subject()
@@ -195,7 +199,7 @@ class H:
                 full = self.op == "window_with_time_or_count" and m["n"] >= 2
                 if not full and m["close"] - m["open"] < 1.0 - 1e-9:
                     P.append((f"{self.op}|window-closed-early", f"window {name} opened at clock {m['open']} closed at {m['close']} with {m['n']} elements (timespan 1.0" + (", count 2)" if self.op.endswith("count") else ")")))
-        if self.op.split(":")[0] in ("merge", "merge_all", "flat_map") and all(q[-1] == "C" for q in self.seqs):
+        if self.op.split(":")[0] in ("merge", "merge_all", "flat_map", "switch_latest") and all(q[-1] == "C" for q in self.seqs):
             # merge family: once the outer and every inner completed, the output must have completed (C11's rule, here under threads)
             if "".join(st["logs"]["out"])[-1:] != "C":
                 P.append((f"{self.op}|never-completed", f"every source completed but downstream received {''.join(st['logs']['out'])!r} and no completion"))
@@ -222,11 +226,11 @@ def harnesses(tier):
         if tier == "thorough" and op in ("merge", "zip", "combine_latest"):
             for tr in itertools.combinations_with_replacement(SEQ_Q, 3):
                 hs.append(H(op, tr))
-    for op in ("merge_all:outer", "flat_map:outer"):
+    for op in ("merge_all:outer", "flat_map:outer", "switch_latest:outer"):
         inner = [("C",), ("N", "C"), ("N", "E")] if tier == "quick" else SEQ_T
         for a in inner:
             hs.append(H(op, (a,)))
-        if tier == "thorough":
+        if tier == "thorough" and op != "switch_latest:outer":
             for a, b in itertools.combinations_with_replacement(SEQ_Q, 2):
                 hs.append(H(op, (a, b)))
     for op in ("window_with_time", "window_with_time_or_count"):
